@@ -55,7 +55,8 @@ def seed_pages() -> Tuple[Doc, Dict[str, Any]]:
     c3 = d.add(Stream({"Filter": N("FlateDecode"), "DecodeParms": {"Predictor": 1, "Columns": 1}}, zlib.compress(b"q 1 0 0 1 5 5 cm BT /F2 9 Tf 1 0 0 1 20 50 Tm (Three) Tj T* (x) ' ET Q")))
     mbox = d.add([0, 0, 200, 150])
     labels = d.add({"Nums": [0, {"S": N("r")}, 2, {"S": N("D"), "St": 5, "P": b"A-"}]})
-    d.set(cat, {"Type": N("Catalog"), "Pages": root, "PageLabels": {"Kids": [labels]}})
+    mid_labels = d.add({"Kids": [labels]})
+    d.set(cat, {"Type": N("Catalog"), "Pages": root, "PageLabels": {"Kids": [mid_labels]}})
     d.set(root, {"Type": N("Pages"), "Kids": [mid, p3], "Count": 3, "Resources": {"Font": {"F1": f1}, "ProcSet": [N("PDF"), N("Text")]}, "MediaBox": mbox, "Rotate": 90})
     d.set(mid, {"Type": N("Pages"), "Parent": root, "Kids": [p1, p2], "Count": 2, "CropBox": [10, 10, 190, 140]})
     d.set(p1, {"Type": N("Page"), "Parent": mid, "Contents": c1})
